@@ -746,6 +746,9 @@ func (r *recorder) replayCase(path string) error {
 	return nil
 }
 
+// families that exist only for the v5 module (they need the staged codec)
+var extraFamilies = map[string]func(*recorder){}
+
 func main() {
 	fam := flag.String("fam", "patch", "patch | merge | create | compose | equal | mix")
 	n := flag.Int("n", 100, "number of traces")
@@ -786,6 +789,10 @@ func main() {
 		case "equal":
 			r.equalTrace()
 		default:
+			if f, ok := extraFamilies[k]; ok {
+				f(r)
+				continue
+			}
 			fmt.Fprintln(os.Stderr, "record: unknown family", k)
 			os.Exit(2)
 		}
